@@ -394,6 +394,9 @@ fn same_violation(vs: &[Violation], want: &Violation) -> Option<Violation> {
 /// complete scenario including its schedule, so shrinking never depends on a
 /// run that "happens not to fail".
 pub fn minimise<L: Lane>(path: &str, out_path: &str, budget: usize) -> Result<ReplayFile<L::Body>, String> {
+    // wall-clock limit as well: one re-execution of a giant scenario can take seconds
+    let max_secs: u64 = std::env::var("VERIF_MINIMISE_SECS").ok().and_then(|s| s.parse().ok()).unwrap_or(60);
+    let deadline = std::time::Instant::now() + std::time::Duration::from_secs(max_secs);
     let text = std::fs::read_to_string(path).map_err(|e| format!("read {path}: {e}"))?;
     let mut rf: ReplayFile<L::Body> = serde_json::from_str(&text).map_err(|e| format!("parse: {e}"))?;
     let want = rf.violation.clone();
@@ -410,7 +413,7 @@ pub fn minimise<L: Lane>(path: &str, out_path: &str, budget: usize) -> Result<Re
         None => return Err("violation does not reproduce before minimisation".into()),
     };
     let mut progress = true;
-    while progress && tries < budget {
+    while progress && tries < budget && std::time::Instant::now() < deadline {
         progress = false;
         // 1. configurations
         let mut cands: Vec<Scenario<L::Body>> = Vec::new();
@@ -479,7 +482,7 @@ pub fn minimise<L: Lane>(path: &str, out_path: &str, budget: usize) -> Result<Re
             cands.push(c);
         }
         for c in cands {
-            if tries >= budget {
+            if tries >= budget || std::time::Instant::now() >= deadline {
                 break;
             }
             tries += 1;
@@ -531,7 +534,8 @@ pub fn minimise<L: Lane>(path: &str, out_path: &str, budget: usize) -> Result<Re
             // doubling search for a prefix that works, then a linear scan below it
             let mut k = 0usize;
             let mut found: Option<(usize, Scenario<L::Body>, Violation)> = None;
-            while k < tr.len() && tries < budget + 64 {
+            let deadline2 = deadline + std::time::Duration::from_secs(max_secs / 2);
+            while k < tr.len() && tries < budget + 64 && std::time::Instant::now() < deadline2 {
                 if let Some((c, v)) = try_prefix(k, &mut tries) {
                     found = Some((k, c, v));
                     break;
@@ -542,7 +546,7 @@ pub fn minimise<L: Lane>(path: &str, out_path: &str, budget: usize) -> Result<Re
                 let (mut best_k, mut best) = (k_hi, (c, v));
                 let lo = k_hi / 2 + 1;
                 for kk in lo..k_hi {
-                    if tries >= budget + 128 {
+                    if tries >= budget + 128 || std::time::Instant::now() >= deadline2 {
                         break;
                     }
                     if let Some((c, v)) = try_prefix(kk, &mut tries) {
